@@ -23,15 +23,29 @@ func NewRoundRobinStrategy() *RoundRobinStrategy {
 
 // NextBackend returns the next backend in the rotation
 func (rr *RoundRobinStrategy) NextBackend(r *http.Request) *Backend {
-	rr.mutex.RLock()
-	defer rr.mutex.RUnlock()
+	// One pick at a time: the turn goes to the next backend in the rotation whose health flag
+	// is up, and finding it and moving the cursor there is one step. (With the cursor merely
+	// incremented, a request whose picks keep landing on an ejected backend - concurrent
+	// requests taking the turns in between - ends up on a fallback outside the rotation, and
+	// the eligible backends no longer get equal shares.)
+	rr.mutex.Lock()
+	defer rr.mutex.Unlock()
 
-	if len(rr.backends) == 0 {
+	n := uint64(len(rr.backends))
+	if n == 0 {
 		return nil
 	}
 
-	// Get the next index in a thread-safe way
-	idx := atomic.AddUint64(&rr.current, 1) % uint64(len(rr.backends))
+	current := atomic.LoadUint64(&rr.current)
+	for i := uint64(1); i <= n; i++ {
+		if backend := rr.backends[(current+i)%n]; backend.healthFlag() {
+			atomic.StoreUint64(&rr.current, current+i)
+			return backend
+		}
+	}
+
+	// Nobody's flag is up: plain rotation, the caller looks at the unhealthy windows
+	idx := atomic.AddUint64(&rr.current, 1) % n
 	return rr.backends[idx]
 }
 
